@@ -378,12 +378,16 @@ func (r *verifRecorder) AnnotatedEventf(object runtime.Object, _ map[string]stri
 // verifEvents drives the controller's real reporting functions the way processChanges / processProblems do
 // (the configurator calls in between are left out: no NGINX is involved, every apply "succeeds").
 // gone is the key-with-kind of an object deleted from the cluster by this very event (no report is sent for it).
+// verifApplyErr, when set (kv fail=1), is what every apply "returned": the NGINX reload failed. The reporting functions then get
+// it as operationErr / deleteErr, as processChanges passes it on.
+var verifApplyErr error
+
 func verifEvents(changes []ResourceChange, problems []ConfigurationProblem, gone string) []string {
 	rec := &verifRecorder{}
 	lbc := &LoadBalancerController{recorder: rec, Logger: verifLogger, isLeaderElectionEnabled: true}
 	for _, c := range changes {
 		if c.Op == AddOrUpdate {
-			lbc.updateResourcesStatusAndEvents([]Resource{c.Resource}, configs.Warnings{}, nil)
+			lbc.updateResourcesStatusAndEvents([]Resource{c.Resource}, configs.Warnings{}, verifApplyErr)
 			continue
 		}
 		if c.Resource.GetKeyWithKind() == gone {
@@ -391,11 +395,11 @@ func verifEvents(changes []ResourceChange, problems []ConfigurationProblem, gone
 		}
 		switch impl := c.Resource.(type) {
 		case *VirtualServerConfiguration:
-			lbc.UpdateVirtualServerStatusAndEventsOnDelete(impl, c.Error, nil)
+			lbc.UpdateVirtualServerStatusAndEventsOnDelete(impl, c.Error, verifApplyErr)
 		case *IngressConfiguration:
-			lbc.UpdateIngressStatusAndEventsOnDelete(impl, c.Error, nil)
+			lbc.UpdateIngressStatusAndEventsOnDelete(impl, c.Error, verifApplyErr)
 		case *TransportServerConfiguration:
-			lbc.updateTransportServerStatusAndEventsOnDelete(impl, c.Error, nil)
+			lbc.updateTransportServerStatusAndEventsOnDelete(impl, c.Error, verifApplyErr)
 		}
 	}
 	lbc.processProblems(problems)
@@ -492,6 +496,11 @@ func VerifArb(kv map[string]string) string {
 		rep = 1
 	}
 	first := ""
+	verifApplyErr = nil
+	if kv["fail"] == "1" {
+		verifApplyErr = fmt.Errorf("nginx reload failed")
+	}
+	defer func() { verifApplyErr = nil }()
 	for i := 0; i < rep; i++ {
 		c := VerifNewConfiguration(kv["pt"] == "1", kv["cm"] == "1", verifForbidden(kv["forb"]))
 		var out []string
